@@ -29,7 +29,7 @@ RULE = ('air/vac: every menu wavelength (log lattice 100 A..30 um plus threshold
         'non-trivial = row not constant across bands or more than one row. '
         'filter_thru: every unordered pair of comb impulses x coefficient menu x (wavelength solution, image/trace-set form, dtype, toair, mask) '
         '(solutions include wing3: traces reaching only 3-6 pixels into a band wing, summed weight ~1e-6 of the band), a reduced relation set in 5 memory layouts of flux/waveimg/mask, '
-        'and every single masked run of 1..10 pixels starting on the comb x wild values; non-trivial = at least one band overlapped by the trace. '
+        'every single masked run of 1..10 pixels starting on the comb x wild values, and 14 mask flag conventions (bool, 0/1, bitmasks, uint8, int64, -1, int32 bit 31, mixed-sign flags summing to zero, float masks) x 5 runs; non-trivial = at least one band overlapped by the trace. '
         'Distinct = distinct (function, input, form/configuration) tuples.')
 ASSUMPTIONS = ['every trace passed to filter_thru keeps at least one unmasked pixel (with none the answer is undefined; the code then integrates the masked values)',
                'float64 forms: inverse relations to 1e-6 A as stated; agreement between forms to 1e-12 relative (unit-conversion rounding)',
@@ -448,22 +448,32 @@ def overlap_table(wave):
     return ov, outside
 
 
+MASK_DTYPES = {'i4': np.int32, 'i2': np.int16, 'i8': np.int64, 'u1': np.uint8, 'f4': np.float32, 'f8': np.float64}
+# "masked" means non-zero, whatever the flag convention: (dtype, value or values cycled along the run)
+MASK_VALUES = [('i4', 1), ('bool', 1), ('i4', 64), ('u1', 255), ('i8', 1 << 40), ('i4', -1), ('i2', -1), ('i4', -2147483648),
+               ('i4', [5, -5]), ('i4', [1, 2, -3]), ('f8', 0.5), ('f8', -1.0), ('f4', 1.0), ('f8', [0.25, -0.25])]
+
+
 def mask_image(spec, ntr, g, nx):
-    """spec: None | {'kind':'run','start':p,'len':L,'shift':s,'val':v,'dt':'i4'|'bool'} | {'kind':'allbut','keep':[pixels],...}.
-    Image rows are ordered trace-major: row t*g + r is group row r on trace t; 'shift' moves the run by s pixels per trace."""
+    """spec: None | {'kind':'run','start':p,'len':L,'shift':s,'val':v|[v...],'dt':<MASK_DTYPES>|'bool'} | {'kind':'allbut','keep':[pixels],...}.
+    Image rows are ordered trace-major: row t*g + r is group row r on trace t; 'shift' moves the run by s pixels per trace.
+    A list of values is cycled along the masked pixels (mixed-sign flags)."""
     if spec is None:
         return None
-    m = np.zeros((ntr * g, nx), dtype=np.int32)
+    dt = spec.get('dt', 'i4')
+    val = spec.get('val', 1)
+    vals = list(val) if isinstance(val, (list, tuple)) else [val]
+    m = np.zeros((ntr * g, nx), dtype=np.int32 if dt == 'bool' else MASK_DTYPES[dt])
     for t in range(ntr):
         for r in range(g):
             if spec['kind'] == 'run':
                 s0 = spec['start'] + spec.get('shift', 0) * t
-                m[t * g + r, s0:s0 + spec['len']] = spec.get('val', 1)
-            elif spec['kind'] == 'allbut':
-                m[t * g + r, :] = spec.get('val', 1)
-                for k in spec['keep']:
-                    m[t * g + r, k] = 0
-    if spec.get('dt') == 'bool':
+                idx = list(range(s0, min(nx, s0 + spec['len'])))
+            else:
+                idx = [k for k in range(nx) if k not in spec['keep']]
+            for n, k in enumerate(idx):
+                m[t * g + r, k] = vals[n % len(vals)]
+    if dt == 'bool':
         return m != 0
     return m
 
@@ -659,6 +669,11 @@ def tasks(tier):
                                    + ([('stag3', 'wset', 'f4', True), ('rev2', 'waveimg', 'f4', True), ('wing3', 'waveimg', 'f8', True)] if T else [])):
         for lay in ('F', 'T', 'stride', 'be', 'ro'):
             t.append({'k': 'ftlay', 'cfg': {'sol': sol, 'form': form, 'dtype': dtype, 'toair': toair, 'layout': lay}, 'ncomb': ncomb})
+    # mask flag conventions: every (dtype, value) of MASK_VALUES on a few runs (incl. even lengths, so mixed-sign flags sum to zero)
+    for sol, form, dtype, toair in ([('full3', 'waveimg', 'f8', False), ('stag3', 'wset', 'f4', False)]
+                                   + ([('stag3', 'waveimg', 'f8', True), ('curv2', 'waveimg', 'f4', False), ('rev2', 'wset', 'f8', False)] if T else [])):
+        for part in range(2):
+            t.append({'k': 'ftmval', 'cfg': {'sol': sol, 'form': form, 'dtype': dtype, 'toair': toair}, 'ncomb': ncomb, 'part': part})
     for cfg in ft_configs(tier):
         if cfg['sol'] == 'wing3':
             continue
@@ -791,6 +806,19 @@ def run_task(task):
             sp = dict(kind='run', start=pix[1], len=4, shift=2, val=val, dt=dt_)
             _do_ft(acc, {'f': 'ft', 'cfg': cfg, 'mask': sp, 'rel': 'maskind', 'rows': [gen, gen, gen], 'ncomb': nc,
                          'wild': [1000.0, float('nan')], 'wildrows': [1, 2]})
+    elif k == 'ftmval':
+        cfg, nc = task['cfg'], task['ncomb']
+        nx = SOLS[cfg['sol']][0]
+        pix = comb(nx, nc)
+        gen = {'c': 0.5, 'imp': [[j, float((j * 7) % 5 - 2)] for j in range(nc)]}
+        for dt_, val in MASK_VALUES[task['part']::2]:
+            for start, L, shift in ((pix[1], 1, 0), (pix[1], 4, 0), (pix[2], 6, 1), (nx - 2, 2, 0)):
+                sp = dict(kind='run', start=start, len=L, shift=shift, val=val, dt=dt_)
+                _do_ft(acc, {'f': 'ft', 'cfg': cfg, 'mask': sp, 'rel': 'maskind', 'rows': [gen, gen, gen], 'ncomb': nc,
+                             'wild': [1000.0, float('nan')], 'wildrows': [1, 2]})
+            sp = dict(kind='run', start=pix[1], len=2, shift=0, val=val, dt=dt_)
+            _do_ft(acc, {'f': 'ft', 'cfg': cfg, 'mask': sp, 'rel': 'hidden',
+                         'rows': [{'c': 3.0}, {'c': 0.0, 'imp': [[1, 1.0]]}], 'ncomb': nc, 'wild': [55.0], 'wildrows': [0]})
     elif k == 'ftmask':
         cfg, nc = task['cfg'], task['ncomb']
         nx = SOLS[cfg['sol']][0]
